@@ -33,6 +33,11 @@ CLAIMED = {
    text="Structural necessary conditions decided at every site: Future outcome fields only under Future.mu; every settling write and close(done) is behind the already-resolved test, resolved is set and the outcome written before done closes, done closes once; no blocking channel operation under Future.mu; Await* and the VM's FutureValue readers touch the outcome only after receiving from done; the interpreter's async goroutine captures only a detached Environment; the VM's async goroutine captures no *VM and only values created in execAsync, its first deferred call closes Done and only it writes Result/Error; All stores values at their future's index; Any's shared state is under its mutex.",
    note="Does not cover determinism under all schedules, first-settled/first-success as history properties, VM jump relocation inside embedded async bodies. Trusted: go/types, go/ssa.",
    ref="DESIGN.md §3 C09"),
+ "C13": dict(
+   technique="static analysis: SSA taint/cleanliness analysis of all SQL text (guard-edge-aware, fmt/strings/Builder summaries, raw-SQL wrapper fixpoint), regexp/syntax language check of the sanitisers, sibling-driver agreement, allow-list cross-check",
+   text="The structural clause 'every statement is a fixed template plus validated identifiers' decided for every SQL sink of pkg/database (whole module in thorough): the text argument of each sink and Build's result is built only from constants, sanitiser results, numeric formatting and values a guard proves to be one of finitely many constants; every sanitiser validates with an anchored pattern whose language excludes quote/semicolon/comment characters and returns non-empty text only on the match edge, built from the validated value; sibling drivers validate the same identifier parameters; no raw-SQL method is on the provider allow-list.",
+   note="Does not cover execution on a real engine, nor adequacy of the column-type grammar beyond its character set. Heap is field-insensitive (field loads tainted). Trusted: go/types, go/ssa, regexp/syntax, the sanitiser naming role ([Ss]anitize* returning (T, error)).",
+   ref="DESIGN.md §3 C13"),
 }
 
 NA_REASONS = {}
